@@ -210,7 +210,7 @@ CLAIMS["C14"] = dict(engine="SeqModel",
    technique="Rocq/Coq proof (simulation between specification and per-strategy sequential models, induction over programs) + extracted-model differential testing on the real crate")
 
 RUNOK = ("for every run from an initial configuration within Main.RunOK (initial values null or valid addresses; no program uses the set_generation hook or Cache; in "
-         "every state no generation counter within 4 of wrapping, destination handles of commands empty, clone sources not dropped - conditions on the test program, "
+         "every state no generation counter within 4 of wrapping - which GenLen.v derives for every run of fewer than 2^62 steps (RunOKLen) -, destination handles of commands empty, clone sources not dropped - conditions on the test program, "
          "checked by an extracted mirror on every correspondence run and counted in the evidence; allocator returns addresses that are not live, not null, not the empty-slot marker)")
 MASTER = ("The proof is the inductive invariant Main.Master (about 20 000 lines of Coq, no axioms): node ownership and per-program-point assertions (WF2), reservation counting and "
           "generation uniqueness (GenInv), envelope exclusivity (EnvInv), exact accounting (AccInv), slot coverage (ProtInv'), stack typing, and 'no thread has faulted', "
